@@ -507,6 +507,8 @@ func checkC16() *checkDef {
 				{Pkg: "./webserver/api", Scenario: "api/login", Params: map[string]any{}, Workers: 1},
 				// every JSON value shape at every position of an update document
 				{Pkg: "./config", Scenario: "config/doc-shapes", Params: map[string]any{}, Workers: 1},
+				// a request whose target is the proxy's own address
+				{Pkg: "./proxy", Scenario: "proxy/self-request", Params: map[string]any{}, Workers: 1},
 				{Pkg: "./proxy", Scenario: "proxy/fresh", Params: map[string]any{"backend": "memory"}},
 			}
 		},
@@ -941,6 +943,8 @@ func checkC14() *checkDef {
 				pp = append(pp, psched{Name: n("request-vs-tick-vs-delete/fresh"), Backend: be, Clients: 1, Start: "fresh", Outcome: "cacheable", TickS: 50, Evictor: "delete", Prop: "C14"})
 			}
 			return []run{
+				// a request whose target is the proxy's own address (must be answered, by the proxy ending the loop)
+				{Pkg: "./proxy", Scenario: "proxy/self-request", Params: map[string]any{}, Workers: 1},
 				{Pkg: "./cache", Scenario: "cache/sched", Params: ps, K: k, E: 1, Horizon: 5000},
 				{Pkg: "./proxy", Scenario: "proxy/sched", Params: pp, K: k, E: 1, F: 1, Horizon: 8000},
 				// every history (depth 3) of run-time changes of size limit, memory budget and cleanup interval followed by a probe must run to completion
